@@ -17,6 +17,8 @@ package main
 
 import (
 	"fmt"
+	humanize "github.com/dustin/go-humanize"
+	"math"
 	"path"
 	"sort"
 	"strconv"
@@ -104,7 +106,8 @@ func (e *envT) addTokens(text string) {
 				e.times[t.Value] = GNone
 			}
 		case "Number":
-			if v, err := lql.VC12ParseSize(t.Value); err == nil {
+			// the library function itself (Size.Capture is code under test: the table must not go through it)
+			if v, err := humanize.ParseBytes(t.Value); err == nil {
 				e.sizes[t.Value] = GSome(GN(v))
 			} else {
 				e.sizes[t.Value] = GNone
@@ -653,7 +656,7 @@ func stmtCase(rp Replay) (*Case, error) {
 	re := GNone
 	m1 := stmtMeaning(l1)
 	kind := m1["kind"]
-	cs.Tags = []string{"stmt:" + kind}
+	cs.Tags = append([]string{"stmt:" + kind}, classTags(l1)...)
 	if err2 == nil {
 		re = GSome(gLql(l2))
 		m2 := stmtMeaning(l2)
@@ -689,6 +692,12 @@ func stmtCase(rp Replay) (*Case, error) {
 		}
 		cs.Oracle = &Violation{Class: cls, Detail: fmt.Sprintf("%q parses, its print %q does not: %v", rp.Text, p, err2)}
 	}
+	if cs.Oracle == nil && err2 == nil {
+		// print is idempotent: the re-parsed statement prints as the statement did
+		if p2 := l2.String(); p2 != p {
+			cs.Oracle = &Violation{Class: "stmt-print-not-idempotent", Detail: fmt.Sprintf("%q prints as %q, which parses and then prints as %q", rp.Text, p, p2)}
+		}
+	}
 	if cs.Oracle == nil {
 		if d := nodeStrings(l1, p); d != "" {
 			cs.Oracle = &Violation{Class: "stmt-node-string-differs", Detail: fmt.Sprintf("%q: %s", rp.Text, d)}
@@ -709,6 +718,106 @@ func hasFraction(l *lql.Lql) bool {
 		return fr(t.Before)
 	}
 	return false
+}
+
+// classTags names the boundary classes a parsed statement falls into (for the input distribution of the evidence)
+func classTags(l *lql.Lql) []string {
+	var out []string
+	add := func(t string) { out = append(out, "class:"+t) }
+	num := func(v int64) {
+		switch {
+		case v == math.MaxInt64 || v == math.MinInt64:
+			add("num-int64-end")
+		case v > math.MaxInt32 || v < math.MinInt32:
+			add("num-beyond-int32")
+		case v < 0:
+			add("num-negative")
+		case v == 0:
+			add("num-zero")
+		}
+	}
+	tm := func(dt *lql.DateTime) {
+		if dt == nil {
+			return
+		}
+		v := int64(*dt)
+		if v%1000000000 != 0 {
+			add("time-fraction")
+		}
+		if v > 9e18 || v < -9e18 {
+			add("time-int64-end")
+		} else if y := time.Unix(0, v).UTC().Year(); y != 2019 {
+			add("time-not-2019")
+		}
+	}
+	src := func(s *lql.Source) {
+		if s == nil || s.Tags == nil {
+			return
+		}
+		ps := tag.VC12TagPairs(s.Tags.Tags)
+		for i, kv := range ps {
+			if v := kv[1]; v != strings.Trim(v, " ") {
+				if i == len(ps)-1 {
+					add("tags-edge-blank-last")
+				} else {
+					add("tags-edge-blank-not-last")
+				}
+			}
+			for _, kw := range ps[:i] {
+				if kw[0] != kv[0] && strings.EqualFold(kw[0], kv[0]) {
+					add("tags-names-differ-in-case")
+				}
+			}
+		}
+		if len(ps) > 2 {
+			add("tags-3-or-more")
+		}
+	}
+	sz := func(p *lql.Size) {
+		if p != nil && uint64(*p) >= 1<<63 {
+			add("size-beyond-int63")
+		}
+	}
+	switch {
+	case l.Select != nil:
+		s := l.Select
+		if s.Offset != nil {
+			num(*s.Offset)
+		}
+		if s.Limit != nil {
+			num(*s.Limit)
+		}
+		if s.Range != nil {
+			tm(s.Range.TmPoint1)
+			tm(s.Range.TmPoint2)
+		}
+		src(s.Source)
+	case l.Truncate != nil:
+		t := l.Truncate
+		sz(t.MinSize)
+		sz(t.MaxSize)
+		sz(t.MaxDbSize)
+		tm(t.Before)
+		src(t.Source)
+	case l.Show != nil && l.Show.Partitions != nil:
+		src(l.Show.Partitions.Source)
+		if o := l.Show.Partitions.Offset; o != nil {
+			num(int64(*o))
+		}
+		if o := l.Show.Partitions.Limit; o != nil {
+			num(int64(*o))
+		}
+	case l.Show != nil && l.Show.Pipes != nil:
+		if o := l.Show.Pipes.Offset; o != nil {
+			num(*o)
+		}
+		if o := l.Show.Pipes.Limit; o != nil {
+			num(*o)
+		}
+	case l.Create != nil && l.Create.Pipe != nil:
+		src(l.Create.Pipe.From)
+	}
+	return out
 }
 
 // some value of the {tags} source satisfies p
@@ -862,6 +971,11 @@ func exprCase(rp Replay) (*Case, error) {
 	} else {
 		cs.Oracle = &Violation{Class: "expr-print-not-reparsable", Detail: fmt.Sprintf("%q parses, its print %q does not: %v", rp.Text, p, err2)}
 	}
+	if cs.Oracle == nil && err2 == nil && e2 != nil {
+		if p2 := e2.String(); p2 != p {
+			cs.Oracle = &Violation{Class: "expr-print-not-idempotent", Detail: fmt.Sprintf("%q prints as %q, which parses and then prints as %q", rp.Text, p, p2)}
+		}
+	}
 	if cs.Oracle == nil {
 		if d := condStrings(e1, p); d != "" {
 			cs.Oracle = &Violation{Class: "expr-node-string-differs", Detail: fmt.Sprintf("%q: %s", rp.Text, d)}
@@ -916,10 +1030,15 @@ func sourceCase(rp Replay) (*Case, error) {
 		}
 		cs.Oracle = &Violation{Class: cls, Detail: fmt.Sprintf("%q parses, its print %q does not: %v", rp.Text, p, err2)}
 	}
+	if cs.Oracle == nil && err2 == nil && s2 != nil {
+		if p2 := s2.String(); p2 != p {
+			cs.Oracle = &Violation{Class: "source-print-not-idempotent", Detail: fmt.Sprintf("%q prints as %q, which parses and then prints as %q", rp.Text, p, p2)}
+		}
+	}
 	cs.Coq = GApp("KSource", GStr(rp.Text), env.gallina(), GApp("RSOk", gSource(s1), GStr(p), re))
 	cs.Tags = []string{"source:parsed"}
 	if s1.Tags != nil {
-		cs.Tags = []string{"source:tags"}
+		cs.Tags = append([]string{"source:tags"}, classTags(&lql.Lql{Select: &lql.Select{Source: s1}})...)
 		cs.NonTrivial = true
 	}
 	return cs, nil
@@ -1046,6 +1165,10 @@ func pipeCase(rp Replay, srv *Server, seq *int) (*Case, error) {
 			st, gerr := srv.Pipes.GetPipe(name)
 			if gerr != nil {
 				fail("pipe-created-not-found", name)
+			} else if _, e1 := lql.BuildTagsExpFunc(tc); e1 != nil {
+				fail("pipe-unbuildable-created", fmt.Sprintf("%q was accepted although its source condition %q does not build: %v", rp.Text, tc, e1))
+			} else if _, e2 := lql.BuildWhereExpFunc(fc); e2 != nil {
+				fail("pipe-unbuildable-created", fmt.Sprintf("%q was accepted although its filter %q does not build: %v", rp.Text, fc, e2))
 			} else if st.TagsCond != tc || st.FltCond != fc {
 				fail("pipe-stored-conditions", fmt.Sprintf("%q stored (%q, %q), From/Where print as (%q, %q)", rp.Text, st.TagsCond, st.FltCond, tc, fc))
 			}
@@ -1160,11 +1283,33 @@ var corpus = []Replay{
 	{Kind: "stmt", Text: `SELECT FROM {host="web ",zone=eu} LIMIT 5`}, {Kind: "stmt", Text: `TRUNCATE {host=eu,zone="web "}`},
 	{Kind: "stmt", Text: `SHOW PARTITIONS {a=" x",b="y ",c=z} LIMIT 3`}, {Kind: "stmt", Text: `DESCRIBE PARTITION {host="web ",zone=eu}`},
 	{Kind: "pipe", Text: `CREATE PIPE p FROM {host="web ",zone=eu}`},
+	// boundaries: both ends of int64 in OFFSET / LIMIT, of uint64 in sizes, of the int64 nanoseconds in time points (and one beyond)
+	{Kind: "stmt", Text: `SELECT OFFSET -9223372036854775808 LIMIT 9223372036854775807`}, {Kind: "stmt", Text: `SELECT OFFSET 9223372036854775808`},
+	{Kind: "stmt", Text: `SELECT LIMIT -9223372036854775809`}, {Kind: "stmt", Text: `SHOW PARTITIONS OFFSET -1 LIMIT 0`}, {Kind: "stmt", Text: `SHOW PIPES OFFSET 2147483648 LIMIT 4294967296`},
+	{Kind: "stmt", Text: `SELECT OFFSET -0 LIMIT +0`}, {Kind: "stmt", Text: `SELECT LIMIT 0777777777777777777777`}, {Kind: "stmt", Text: `SELECT LIMIT 01000000000000000000000`},
+	{Kind: "stmt", Text: `TRUNCATE MINSIZE 9223372036854775807 MAXSIZE 18446744073709551615 MAXDBSIZE 1`}, {Kind: "stmt", Text: `TRUNCATE MAXSIZE 18446744073709551616`},
+	{Kind: "stmt", Text: `TRUNCATE MINSIZE 15EiB MAXDBSIZE 16EiB`}, {Kind: "stmt", Text: `TRUNCATE MINSIZE 0.5 MAXSIZE 1.0005kb`},
+	{Kind: "stmt", Text: `SELECT RANGE ["-9223372036854775808":"9223372036854775807"]`}, {Kind: "stmt", Text: `SELECT RANGE ["1677-09-21 00:12:43.145224192 +0000 UTC":"2262-04-11 23:47:16.854775807 +0000 UTC"]`},
+	{Kind: "stmt", Text: `SELECT RANGE "2262-04-11 23:47:16.854775808 +0000 UTC"`}, {Kind: "stmt", Text: `SELECT RANGE ["1000-01-01":"2999-12-31 23:59:59"]`},
+	{Kind: "stmt", Text: `TRUNCATE BEFORE "2020-02-29 23:59:59.999999999 +0000 UTC"`}, {Kind: "stmt", Text: `TRUNCATE BEFORE "2019-03-11 12:34:44 -0700 MST"`},
+	{Kind: "stmt", Text: `SELECT RANGE ["1969-12-31 23:59:59.999999999 +0000 UTC":"1970-01-01 00:00:00 +0000 UTC"]`},
+	// blanks the lexer skips: form feed, carriage return (the bare-SELECT rule trims with strings.TrimSpace)
+	{Kind: "stmt", Text: "SELECT\r\n"}, {Kind: "stmt", Text: "\fSELECT\t"}, {Kind: "stmt", Text: "SELECT\fLIMIT\r5"}, {Kind: "stmt", Text: "SELECT\u00a0"}, {Kind: "stmt", Text: "SELECT\u0085"},
+	// names: the same in another case, prefixes of each other, long; tag names that differ in case only, a repeated name
+	{Kind: "stmt", Text: `DESCRIBE PIPE P`}, {Kind: "stmt", Text: `DELETE PIPE ` + strings.Repeat("n", 300)}, {Kind: "pipe", Text: `CREATE PIPE Pipe1 FROM {a=1,A=2,ab=3,a.b=4}`},
+	{Kind: "source", Text: `{a=1,A=2}`}, {Kind: "source", Text: `{b=1,B=2,a=3}`}, {Kind: "source", Text: `{a=1,a=2}`}, {Kind: "source", Text: `{a=x,ab=y,a.b=z,a-b=w,1a=v}`},
+	// many conditions, deep nesting
+	{Kind: "expr", Text: "a=1" + strings.Repeat(" AND NOT b != 2 OR c like \"x*\"", 20)}, {Kind: "expr", Text: strings.Repeat("(", 12) + "a=b" + strings.Repeat(")", 12)},
+	{Kind: "expr", Text: strings.Repeat("NOT (", 8) + "a=b" + strings.Repeat(")", 8)}, {Kind: "expr", Text: "upper(lower(upper(lower(upper(a))))) = X"},
+	{Kind: "stmt", Text: `SELECT POSITION ""`}, {Kind: "stmt", Text: `SELECT POSITION "` + strings.Repeat("A", 400) + `"`},
 	{Kind: "expr", Text: `a = 'q"uote' and b="\x41\101é" or NOT (c>=d.e/f-1:2 and upper(lower(t))<x)`},
 	{Kind: "pipe", Text: `CREATE PIPE p FROM name=app1 OR name like "app*" WHERE msg contains "err" AND NOT ts < 5`},
 	{Kind: "pipe", Text: `CREATE PIPE p FROM {name=app1} WHERE fields:a = x`},
 	{Kind: "pipe", Text: `CREATE PIPE p`},
 	{Kind: "pipe", Text: `CREATE PIPE p FROM a like "[x" WHERE msg like "[x"`},
+	// through Admin.Execute: a definition whose conditions do not build is refused (and leaves no pipe), the same name twice is refused
+	{Kind: "pipee2e", Text: `CREATE PIPE bad1 FROM a like "[x"`}, {Kind: "pipee2e", Text: `CREATE PIPE bad2 WHERE msg like "[x"`},
+	{Kind: "pipee2e", Text: `CREATE PIPE bad3 WHERE foo = 1`}, {Kind: "pipee2e", Text: `CREATE PIPE ok1 FROM {a="web ",b=eu} WHERE NOT msg contains "x"`},
 }
 
 func main() {
@@ -1214,6 +1359,16 @@ func main() {
 			}
 			if cs.Stream == "" {
 				cs.Stream = rp.Kind
+			}
+			if cs.Oracle != nil && (cs.Oracle.Class == "stmt-tags-then-brace-not-reparsable" || cs.Oracle.Class == "source-tags-inner-dquote-not-reparsable") {
+				// a recorded class: the verdict goes to a case of its own, so that the K comparison of this case is still looked at
+				// (the driver skips the K disagreement of a case that O has reported)
+				o := *cs
+				o.Coq, o.Key, o.NonTrivial = GApp("KQuote", "[]", GStr(`""`)), "verdict:"+cs.Oracle.Detail, false
+				cs.Oracle = nil
+				c.Add(*cs)
+				c.Add(o)
+				return nil
 			}
 			c.Add(*cs)
 			return nil
